@@ -418,6 +418,9 @@ impl<'a> Repr<'a> {
         T: AsRef<[u8]> + AsMut<[u8]> + ?Sized,
     {
         packet.set_transaction_id(self.transaction_id);
+        // The setters below only touch their own bits; clear the whole word first so that
+        // Z, RCODE and the unused opcode bit do not keep whatever the buffer contained.
+        NetworkEndian::write_u16(&mut packet.buffer.as_mut()[field::FLAGS], 0);
         packet.set_flags(self.flags);
         packet.set_opcode(self.opcode);
         packet.set_question_count(1);
